@@ -21,6 +21,7 @@ package middlewares
 //@   at-call fiber.Ctx.Next {C02} [next-only-when-authenticated] requires typeIs(ctx.Locals("account"), auth.Account) \
 //@        || (utils.IsBigDataAction(ctx) && called("middlewares.wrapBodyReader")) \
 //@        || (called("utils.CheckValidSignature") && err == nil && (utils.IsSpecialPayload(hashPayload) || hashPayload == hexPayload))
+//@   at-call fiber.Ctx.Next {C02} [next-only-inside-the-time-window] requires typeIs(ctx.Locals("account"), auth.Account) || (called("utils.ValidateDate") && result("utils.ValidateDate", 0) == nil && arg("utils.ValidateDate", 0) == tdate)
 //@   at-call middlewares.sendResponse {C02} [other-returns-are-errors] requires $1 != nil
 //@   at-call utils.CheckValidSignature {C02} [verified-with-the-account-secret] requires $2 == account.Secret && $1 == authData && $0 == ctx && $4 == tdate
 
